@@ -5,7 +5,7 @@ existing test suite still passes with the patch) and stores it under /verif/seed
 import json, os, shutil, subprocess, sys, time
 ENV = dict(os.environ, GOFLAGS="-mod=mod", GOPROXY="off", GOSUMDB="off", GOTOOLCHAIN="local")
 def sh(cmd, cwd=None, timeout=1800):
-    r = subprocess.run(cmd, shell=True, cwd=cwd, capture_output=True, text=True, env=ENV, timeout=timeout)
+    r = subprocess.run(cmd, shell=True, cwd=cwd, capture_output=True, text=True, errors="replace", env=ENV, timeout=timeout)
     return r.returncode, (r.stdout + r.stderr)
 pid = sys.argv[1]
 sid = sys.argv[2] if len(sys.argv) > 2 else pid + "-s1"
